@@ -393,7 +393,7 @@ func runC02(r *Run) {
 	}
 
 	// ---------- R4 ----------
-	nMoving := 0
+	nMoving, nNonMoving := 0, 0
 	for _, m := range models {
 		if !m.Stateful {
 			continue
@@ -408,7 +408,22 @@ func runC02(r *Run) {
 			isMirror := isCallMatching(isStateDBBalanceWrite)
 			for i, s := range sites {
 				why, moving := isBankMoving(s.Info)
-				if !moving || s.Call.Parent() != h.Fn {
+				if !moving {
+					// every Cosmos-side effect a handler performs is classified by reading the callee: either it can
+					// move bank balances (table above) or it provably cannot (table below); an effect in neither
+					// table has not been read and is reported instead of being assumed harmless
+					en := effectName(s.Info)
+					if _, ok := nonMovingEffects[en]; !ok {
+						r.Bad("R4", fmt.Sprintf("%s#unclassified-effect/%s", fnID(h.Fn), en), P.Pos(instrPos(s.Call)),
+							"precompile handler performs the Cosmos-side effect "+s.Info.String()+" which is in neither the bank-moving nor the non-moving table: whether it needs a StateDB mirror has not been established")
+					} else {
+						nNonMoving++
+					}
+					continue
+				}
+				if s.Call.Parent() != h.Fn {
+					r.Bad("R4", fmt.Sprintf("%s#mirror/%s-%d", fnID(h.Fn), s.Info.Name, i+1), P.Pos(instrPos(s.Call)),
+						"a bank-moving effect is performed inside a closure of the handler: the mirror obligation cannot be decided on the handler's own flow graph")
 					continue
 				}
 				nMoving++
@@ -431,6 +446,7 @@ func runC02(r *Run) {
 		}
 	}
 	r.Floor("R4", "bank-moving effect sites in precompile handlers", nMoving, 9)
+	r.Count("R4 effect sites classified non-moving", nNonMoving)
 
 	// ---------- R5 ----------
 	var wiredAddrs []string
